@@ -64,6 +64,10 @@ Calibration
   labels that exist (pandas raises for missing ones).
 * generator restricted: merge/join/concat(axis=1) only when both sides have known divisions (index-aligned);
   ``set_index`` of an EMPTY frame only in the ``sorted=True`` form (the others give ``(nan, nan)`` divisions).
+* classifier: a finding is attributed to the innermost sub-expression whose KNOWN divisions change when it is
+  optimised on its own (a changed partition count shows there too; the count alone is only used with unknown
+  divisions).  Witness: set_index -> filter -> cumsum -> merge(how="right") announced 3 partitions, the graph
+  had 2; blamed first on the Merge, it is the filter pushed below the quantile set_index.
 * nothing is demanded of frames with unknown divisions (``sort=False``, ``reset_index``, ``sort_values``,
   ``clear_divisions``): they are counted (``stages_unknown_divisions``).
 """
@@ -113,49 +117,15 @@ LEVEL_NOTE = "trusts pandas ordering/min/max of index values and the sync schedu
 TECHNIQUE = ("runtime monitoring: divisions post-condition (npartitions, per-partition index bounds) on every stage of "
              "random construction pipelines, two partition views, complete small space + random")
 CASE_TIMEOUT = 120
-PENDING = {
-    # --- one mechanism: Partitions._simplify_down pushes .partitions[i] through LocSlice/LocList/LocElement
-    "loc:slice:partitions-accessor:index-outside-division-interval":
-        "df.loc[lo:hi].partitions[i] returns input partition i (sliced) instead of output partition i",
-    "loc:partitions-accessor:exception":
-        "df.loc[[labels]].partitions[i] applies the label list of output partition i to input partition i -> KeyError (IndexError in Partitions._divisions after a repartition)",
-    "window:partitions-accessor:exception":
-        "set_index(..).repartition(npartitions=fewer).shift(1).partitions[i]: IndexError in RepartitionToFewer._divisions (rare)",
-    "loc:compute:KeyError@base.py:compute":
-        "df.loc[[labels]].loc[label] raises KeyError (same Partitions push-down through LocList, reached via LocElement._lower)",
-    # --- reported partition count differs from the reported divisions
-    "repartition:npartitions:more:numeric-or-datetime-index:graph:npartitions-vs-divisions":
-        "repartition(npartitions=n) above what the interpolated unique divisions allow: npartitions == n but len(divisions)-1 < n",
-    "set_index:npartitions:graph:npartitions-vs-divisions":
-        "set_index(col, npartitions=n): npartitions reports n although fewer quantile divisions exist",
-    # --- the optimised/lowered graph has another partitioning than the one reported
-    "optimize:Projection-over-Concat[axis=1]:reported-divisions-not-those-of-the-graph":
-        "column projection after concat(axis=1) drops whole input frames: partitioning (and for join='inner' the rows) change",
+PENDING = {   # labels listed in known_findings.d/C41.json (everything else was fixed by fixes_ready/C41_*.patch)
     "optimize:Filter-over-SetIndex[quantiles]:reported-divisions-not-those-of-the-graph":
-        "filter pushed below set_index changes the quantile divisions: graph partitions differ from the reported divisions",
+        "a filter applied after set_index(col) (no divisions given) is pushed below the set_index; the quantile divisions are then recomputed from the filtered data, so ",
     "filter:compute:ValueError@dataframe/dask_expr/_repartition.py:_layer":
-        "same push-down through set_index(...).repartition(divisions=...): 'right side of old and new divisions are different'",
-    "optimize:SetIndex[divisions]:reported-divisions-not-those-of-the-graph":
-        "set_index(col, divisions=[lo, hi]) on a 1-partition frame reports the divisions but lowers to unknown divisions; loc/repartition then raise",
+        "set_index(col).repartition(divisions=d)[predicate] raises 'right/left side of old and new divisions are different'",
     "optimize:SetIndex[quantiles]:reported-divisions-not-those-of-the-graph":
-        "set_index after sort_values/cumulative ops: quantile divisions are recomputed at lowering on a differently partitioned input and differ from the reported ones",
-    "optimize:LocSlice:reported-divisions-not-those-of-the-graph":
-        "df.loc[a:b].loc[c:d] reports other divisions than its lowered form; repartition(divisions, force=True) then raises",
-    "repartition:compute:ValueError@dataframe/dask_expr/_repartition.py:_lower":
-        "sort_values on one partition reports unknown divisions, repartition(npartitions=1) on top reports known ones; repartition(divisions=) then raises 'unknown divisions'",
-    "optimize:Merge:reported-divisions-not-those-of-the-graph":
-        "index merge(how='right') after set_index + filter + cumsum: the lowered Merge has fewer partitions than reported (rare)",
-    # --- exceptions on the construction paths
-    "set_index:compute:ValueError@local.py:start_state_from_dask":
-        "concat(axis=1) -> index merge -> set_index(col): 'Missing dependency' while computing the quantiles (graph construction; rare)",
-    "set_index:construct:IndexError@dataframe/dask_expr/_collection.py:compute_current_divisions":
-        "set_index(col, sorted=True) on an empty frame raises IndexError",
-    "set_index:compute:AttributeError@_expr.py:__getattr__":
-        "rolling(...).agg().set_index(col): 'MapOverlap' object has no attribute 'required_columns'",
-    "set_index:compute:AssertionError@dataframe/dask_expr/_repartition.py:_partitions_boundaries":
-        "set_index(a).set_index(b, sort=False).set_index(c): AssertionError in RepartitionToFewer",
+        "ddf.sort_values('a').set_index('t'): the reported divisions differ from the divisions the lowered graph is built with, so some partitions hold index values outs",
     "set_index:divisions-attribute:RuntimeError@_expr.py:__getattr__":
-        "join(how='right') then set_index(col): 'Failed to generate metadata for Merge' ('Series' object has no attribute 'merge')",
+        "rolling(...).sum().join(other, how='right').set_index(col): reading .divisions raises 'Failed to generate metadata for Merge' ('Series' object has no attribute ",
 }
 
 INDEX_KINDS = ("range", "sorted", "dups", "dups", "unsorted", "datetime", "strings", "float")
@@ -649,13 +619,18 @@ def _observe(ctx, ddf, stage, state):
         else:
             # Partitions pushed through an expression that does not keep partition numbers fails in many
             # ways (KeyError / IndexError in different places): one label per step kind
-            ctx.violation("%s:partitions-accessor:exception" % stage.split(":")[0],
-                          "%s: %s" % (type(e).__name__, str(e)[:300]), stage=stage, divisions=shown, **state)
+            w = _where(ddf, stage, True)
+            ctx.violation(_glabel(w, "") if w.startswith("optimize:") else
+                          "%s:partitions-accessor:exception" % stage.split(":")[0],
+                          "%s: %s (partitions accessor)" % (type(e).__name__, str(e)[:300]), stage=stage,
+                          divisions=shown, **state)
         state["accessor_tainted"] = True
         return cur, gparts
     if v:
         sym = "index-outside-division-interval" if v[0] in ("index-below-division", "index-above-division") else v[0]
-        ctx.violation("%s:partitions-accessor:%s" % (stage, sym), v[1], divisions=shown, graph_parts=pshow, **state)
+        w = _where(ddf, stage, True)
+        ctx.violation(_glabel(w, "") if w.startswith("optimize:") else "%s:partitions-accessor:%s" % (stage, sym),
+                      v[1] + " (partitions accessor)", stage=stage, divisions=shown, graph_parts=pshow, **state)
         state["accessor_tainted"] = True
     return cur, gparts
 
@@ -708,18 +683,16 @@ def _where(ddf, stage, by_count):
     """Mechanism attribution for graph-view findings.  When the optimiser/lowering changes the partitioning
     that some sub-expression reports, the finding belongs to that rewrite and not to the step that happened to
     be the last one: return 'optimize:<innermost such sub-expression>[-over-<partition-defining input>]'.
-    by_count: look for a changed partition count, else for changed (known) divisions.  Falls back to the
-    stage label when no sub-expression is affected."""
+    A sub-expression is affected when its known divisions change (by_count: or, with unknown divisions, its
+    partition count).  Falls back to the stage label when no sub-expression is affected."""
     seen = set()
 
     def differs(e):
         o = e.optimize(fuse=False)
-        if by_count:
-            return o.npartitions != e.npartitions
         d = e.divisions
-        if d[0] is None:
-            return False
-        return tuple(o.divisions) != tuple(d)
+        if d[0] is not None and tuple(o.divisions) != tuple(d):
+            return True                      # a changed partition count shows here as well
+        return by_count and o.npartitions != e.npartitions
 
     def walk(e):
         for d in e.dependencies():
